@@ -33,23 +33,23 @@ MAPPINGS = ["JW", "BK", "SCBK", "JKMN"]
 
 
 def cases(tier, seed):
-    ns = [2, 4, 6, 8] if tier == "quick" else [2, 4, 6, 8, 10, 12]
+    ns = [2, 4, 6, 8] if tier == "quick" else [2, 4, 6, 8, 10, 12, 14]
     out = []
     for n in ns:
         for m in MAPPINGS:
             if m == "SCBK" and n < 4:
                 continue
             for utd in (False, True):
-                nchunks = 1 if n <= 8 else (4 if n == 10 else 16)
+                nchunks = 1 if n <= 8 else {10: 4, 12: 16, 14: 64}[n]
                 for ch in range(nchunks):
                     out.append({"sub": "vectors", "n": n, "mapping": m, "utd": utd, "chunk": ch, "nchunks": nchunks})
-    for n in ([2, 4, 6, 8] if tier == "quick" else [2, 4, 6, 8, 10, 12, 14]):
+    for n in ([2, 4, 6, 8] if tier == "quick" else [2, 4, 6, 8, 10, 12, 14, 16, 18, 20]):
         for m in MAPPINGS:
             if m == "SCBK" and n < 4:
                 continue
             out.append({"sub": "reference", "n": n, "mapping": m})
     for n in (2, 4, 6, 8):
-        for i in range(4 if tier == "quick" else 40):
+        for i in range(4 if tier == "quick" else 200):
             out.append({"sub": "reuse", "n": n, "i": i})
     return out
 
